@@ -251,6 +251,16 @@ Definition word_tok (w : list N) : tok :=
        | None => TStr w
        end.
 
+(** [strip p s]: [s] without its prefix [p] *)
+Fixpoint strip (p s : list N) : option (list N) :=
+  match p with
+  | [] => Some s
+  | x :: p' => match s with
+               | y :: s' => if x =? y then strip p' s' else None
+               | [] => None
+               end
+  end.
+
 (** One step at [c :: r]: the token (None = whitespace or a dropped character)
     and the remaining input. *)
 Definition lex1 (c : N) (r : list N) : option tok * list N :=
@@ -260,9 +270,9 @@ Definition lex1 (c : N) (r : list N) : option tok * list N :=
   else if c =? 44 then (Some TComma, r)
   else if c =? 45 then (Some TDash, r)
   else if c =? 61 then
-    match r with
-    | 48 :: 120 :: r' => (Some TEq0x, r')
-    | _ => (Some TEq, r)
+    match strip [48; 120] r with
+    | Some r' => (Some TEq0x, r')
+    | None => (Some TEq, r)
     end
   else if is_digit c then
     match net_tok (c :: r) with
@@ -273,10 +283,11 @@ Definition lex1 (c : N) (r : list N) : option tok * list N :=
       if is_dec h then (Some (TDigits h), rh) else (Some (THex h), rh)
     end
   else if is_alpha c then
-    match c :: r with
-    | 99 :: 108 :: 115 :: 61 :: r' => (Some TClsEq, r')
-    | _ =>
-      let '(l, rl) := span is_alpha (c :: r) in
+    let '(l, rl) := span is_alpha (c :: r) in
+    (* the literal 'cls=' : the letter run is exactly cls and '=' follows *)
+    match (if weqb l (str "cls") then strip [61] rl else None) with
+    | Some r' => (Some TClsEq, r')
+    | None =>
       (* HEX_DIGITS is at least as long as the letter run iff the run is all hex letters *)
       if forallb is_hex l then let '(h, rh) := span is_hex (c :: r) in (Some (THex h), rh)
       else (Some (word_tok l), rl)
@@ -427,19 +438,36 @@ Inductive case :=
 Definition reparse_ok (ev : list bool) (re : pobs) : bool :=
   match re with Some (_, ev') => bools_eqb ev ev' | None => false end.
 
+(** the property on what the implementation showed: the tree's value on every
+    probe is the value of the expression, and a printable tree re-parses to the
+    same value *)
+Definition tree_oracle (e : cond) (ps : list layer) (ev : list bool) (re : pobs) : bool :=
+  bools_eqb (List.map (sem e) ps) ev && (if printable e then reparse_ok ev re else true).
+
+(** an accepted text, printed and parsed again, is accepted with the same value
+    (and prints the same) *)
+Definition text_oracle (impl re : pobs) : bool :=
+  match impl with
+  | Some (s', ev) =>
+    reparse_ok ev re && match re with Some (s'', _) => bytes_eqb s' s'' | None => false end
+  | None => true
+  end.
+
+(** the model's observations *)
+Definition tree_model (e : cond) (ps : list layer) : list N * list bool * pobs :=
+  (print e, evals e ps, pobs_of (print e) ps).
+Definition text_model (s : list N) (ps : list layer) : pobs * pobs :=
+  (pobs_of s ps, match pobs_of s ps with Some (s', _) => pobs_of s' ps | None => None end).
+
 Definition check (c : case) : N :=
   match c with
   | CTree e ps s ev re =>
-    Check.verdict
-      (bytes_eqb (print e) s && bools_eqb (evals e ps) ev && pobs_eqb (pobs_of (print e) ps) re)
-      (bools_eqb (List.map (sem e) ps) ev && (if printable e then reparse_ok ev re else true))
+    let '(ms, mev, mre) := tree_model e ps in
+    Check.verdict (bytes_eqb ms s && bools_eqb mev ev && pobs_eqb mre re) (tree_oracle e ps ev re)
   | CText s ps impl re =>
-    Check.verdict
-      (pobs_eqb (pobs_of s ps) impl &&
-       match pobs_of s ps with Some (s', _) => pobs_eqb (pobs_of s' ps) re | None => true end)
-      (match impl with
-       | Some (s', ev) => reparse_ok ev re && match re with Some (s'', _) => bytes_eqb s' s'' | None => false end
-       | None => true end)
+    let '(mi, mre) := text_model s ps in
+    Check.verdict (pobs_eqb mi impl && match mi with Some _ => pobs_eqb mre re | None => true end)
+                  (text_oracle impl re)
   end.
 
 Definition diag (c : case) : list N * list bool * pobs :=
